@@ -84,6 +84,8 @@ func init() {
 			return s
 		},
 		"internal/stringslite.Index": nil,
+		"internal/stringslite.Clone": func(fr *frame, args []value) value { return args[0] },
+		"strings.Clone":              func(fr *frame, args []value) value { return args[0] },
 		"strings.Compare":            extCompare,
 		"bytes.Compare":              extCompare,
 		"internal/abi.NoEscape":      func(fr *frame, args []value) value { return args[0] },
@@ -134,6 +136,10 @@ func init() {
 		"math/bits.TrailingZeros64": func(fr *frame, args []value) value { return extTrailingZeros(fr, args[0].(*Term)) },
 		"math/bits.TrailingZeros32": func(fr *frame, args []value) value { return extTrailingZeros(fr, args[0].(*Term)) },
 		"math/bits.TrailingZeros":   func(fr *frame, args []value) value { return extTrailingZeros(fr, args[0].(*Term)) },
+
+		// ---- unicode/utf8: ASCII fast path, then the real body
+		"unicode/utf8.DecodeRune":         extDecodeRune,
+		"unicode/utf8.DecodeRuneInString": extDecodeRune,
 
 		// ---- unicode
 		"unicode.IsSpace":   unicodePred("IsSpace", unicode.IsSpace),
@@ -216,6 +222,11 @@ func init() {
 		"(*regexp.Regexp).String":              extRegexpString,
 		"(*regexp.Regexp).FindStringSubmatch":  extRegexpFindSub,
 		"(*regexp.Regexp).FindStringSubmatchIndex": extRegexpFindSubIdx,
+
+		// ---- os (environment stub: files registered by the harness)
+		"os.Open":           extOsOpen,
+		"(*os.File).Read":   extFileRead,
+		"(*os.File).Close":  func(fr *frame, args []value) value { return iface{} },
 
 		// ---- fmt
 		"fmt.Sprintf":  extSprintf,
@@ -541,6 +552,60 @@ func extTrailingZeros(fr *frame, x *Term) value {
 
 // ---------------------------------------------------------------- unicode
 
+// extDecodeRune forks on "first byte is ASCII" so that the common case yields
+// the plain term zext(p[0]); everything else runs the real implementation.
+func extDecodeRune(fr *frame, args []value) value {
+	i := fr.i
+	var p0 *Term
+	n := 0
+	switch s := args[0].(type) {
+	case string, symstr:
+		if n = strLen(s); n > 0 {
+			p0 = i.strAt(s, 0)
+		}
+	case []value:
+		if n = len(s); n > 0 {
+			p0 = s[0].(*Term)
+		}
+	}
+	if n > 0 && i.decide(i.b.Cmp(OULt, p0, i.b.BV(SBV8, 0x80))) {
+		return tuple{i.b.ZExt(p0, SBV32), i.b.BV(SBV64, 1)}
+	}
+	i.bypassIntrinsic = true
+	return i.callSSA(fr.caller, 0, fr.fn, args, nil)
+}
+
+// possibleOnes returns a mask of the bits of t that can be 1.
+func possibleOnes(t *Term, depth int) uint64 {
+	m := maskOf(t.sort)
+	if depth > 12 {
+		return m
+	}
+	switch t.op {
+	case OConst:
+		return t.val
+	case OZExt:
+		return possibleOnes(t.a, depth+1)
+	case OBAnd:
+		return possibleOnes(t.a, depth+1) & possibleOnes(t.b, depth+1)
+	case OBOr, OBXor:
+		return possibleOnes(t.a, depth+1) | possibleOnes(t.b, depth+1)
+	case OIte:
+		return possibleOnes(t.b, depth+1) | possibleOnes(t.c, depth+1)
+	case OShl:
+		if t.b.op == OConst && t.b.val < 64 {
+			return (possibleOnes(t.a, depth+1) << t.b.val) & m
+		}
+	case OLShr:
+		if t.b.op == OConst && t.b.val < 64 {
+			return possibleOnes(t.a, depth+1) >> t.b.val
+		}
+	case OTrunc:
+		return possibleOnes(t.a, depth+1) & m
+	}
+	return m
+}
+
 type runeRange struct{ lo, hi int32 }
 
 var unicodeRanges = map[string][]runeRange{}
@@ -582,8 +647,8 @@ func unicodePred(name string, f func(rune) bool) intrinsicFn {
 		rs := rangesOf(name, f)
 		// If the rune is a zero-extended byte only the Latin-1 part matters.
 		max := int32(unicode.MaxRune)
-		if r.op == OZExt && r.a.sort == SBV8 {
-			max = 255
+		if po := possibleOnes(r, 0); po < uint64(unicode.MaxRune) {
+			max = int32(po) // no bit above the highest possible one can be set
 		}
 		res := b.False
 		for _, rr := range rs {
@@ -948,4 +1013,45 @@ func (i *interpreter) mkError(msg value) value {
 		i.unsupported("errors package not loaded")
 	}
 	return i.callSSA(i.lastFrame, 0, pkg.Func("New"), []value{msg}, nil)
+}
+
+// ---------------------------------------------------------------- os stub
+
+type simFile struct {
+	content []value
+	pos     int
+}
+
+func extOsOpen(fr *frame, args []value) value {
+	i := fr.i
+	ex := i.ex
+	ex.run.noteStub("os.Open/(*os.File).Read: files are the byte contents registered by the harness (vndFile); unknown path = not-exist error")
+	if ex.files != nil {
+		if e := i.mapFind(ex.files, args[0]); e != nil {
+			var cell value = native{&simFile{content: e.val.([]value)}}
+			return tuple{&cell, iface{}}
+		}
+	}
+	return tuple{(*value)(nil), i.mkError(i.strConcat("open ", i.strConcat(args[0], ": no such file or directory")))}
+}
+
+func extFileRead(fr *frame, args []value) value {
+	i := fr.i
+	p := args[0].(*value)
+	if p == nil {
+		nilDeref()
+	}
+	f := (*p).(native).v.(*simFile)
+	buf := args[1].([]value)
+	if f.pos >= len(f.content) {
+		eof := i.globals[i.prog.ImportedPackage("io").Var("EOF")]
+		return tuple{i.b.BV(SBV64, 0), *eof}
+	}
+	n := 0
+	for n < len(buf) && f.pos < len(f.content) {
+		i.set(&buf[n], f.content[f.pos])
+		n++
+		f.pos++
+	}
+	return tuple{i.b.BV(SBV64, uint64(n)), iface{}}
 }
